@@ -132,10 +132,15 @@ def _gen_invalid(rng, cfg, sess, salt):
     elif cls == "wb_offset_past_end":
         b = [0, ln, n + rng.choice([0, 1, 7])]
     elif cls == "wb_len_mismatch":
-        if rng.random() < 0.5:
+        v = rng.random()
+        if v < 0.35:
             g = g[:2]
-        else:
+        elif v < 0.7:
             b = b[:2]
+        elif v < 0.85:
+            g = g[:1]     # one global index, several offsets
+        else:
+            b = b[:1]
     elif cls == "wb_negative":
         # signed index arrays with a negative entry (an index before the recording start / a negative offset)
         v = rng.random()
@@ -416,7 +421,7 @@ def _plan_model(cfg, sessions):
         c = _session_cfg(cfg, s)
         sm = M.SessionModel(c, m)
         for op in s["ops"]:
-            if op.get("invalid") or op.get("collide"):
+            if op.get("invalid") or op.get("collide") or op.get("collide_mid"):
                 continue
             RN.apply_op(sm, op)
     return m
@@ -464,6 +469,7 @@ def _gen_sessions(rng, cfg, maxlen, kill_p=0.0):
         raw_ops = M.gen_writes(rng, c, rng.randrange(1, 6), maxlen=min(maxlen, 2 * cap + 3), p_blocks=0.25,
                                salt0=100 * (k + 1))
         raw_ops = _bound(c, raw_ops, 6)
+        floor_abs = 0
         # classify each op against already recorded periods
         ops = []
         sm = M.SessionModel(c, m)
@@ -472,7 +478,7 @@ def _gen_sessions(rng, cfg, maxlen, kill_p=0.0):
             if op["op"] == "w" and op["rel"] is None:
                 op["rel"] = op["_rel"]
             segs = RN.op_samples(c, op)
-            if min(a for a, _ in segs) < c.start + sm.next_avail:
+            if min(a for a, _ in segs) < max(c.start + sm.next_avail, floor_abs):
                 continue  # after a collision skipped: keep forward-only
             Ts = [T for a, n in segs for T in c.files_of(a, a + n - 1)]
             first_T = Ts[0]
@@ -486,6 +492,18 @@ def _gen_sessions(rng, cfg, maxlen, kill_p=0.0):
                 if first_T in hit_same:
                     op["collide"] = True  # refused before anything is written
                     ops.append(op)
+                elif op["op"] == "w" and not own_open and rng.random() < 0.6:
+                    # one contiguous write that starts in free periods and runs on into a finalized one: refused
+                    # when it gets there; whether the leading part (whole files of its own) stays is left open by
+                    # the statement and is read off the tree afterwards
+                    a0 = segs[0][0]
+                    op["collide_mid"] = True
+                    op["pre_n"] = c.first_of(min(hit_same)) - a0
+                    ops.append(op)
+                    for T in Ts:
+                        if T < min(hit_same):
+                            periods[T] = (top, uuid)
+                    floor_abs = a0 + op["len"]
                 continue
             ops.append(op)
             RN.apply_op(sm, op)
@@ -495,7 +513,7 @@ def _gen_sessions(rng, cfg, maxlen, kill_p=0.0):
             continue
         sess = {"top": top, "uuid": uuid, "start": start, "ops": ops,
                 "cfg": c.to_json() if c.compression != cfg.compression else None}
-        if k < ns - 1 and rng.random() < kill_p and not any(o.get("collide") for o in ops):
+        if k < ns - 1 and rng.random() < kill_p and not any(o.get("collide") or o.get("collide_mid") for o in ops):
             # crash interplay: this recorder is killed at an FS-op boundary; what it had finalized stays
             sess["kill_at"] = rng.randrange(2, 70)
             after_kill = True
@@ -687,6 +705,8 @@ def _run_session(ctx, tree, cfg, sess, si, chan_model, state):
                     if op.get("invalid") or op.get("collide"):
                         fp_before[0] = K.fingerprint(chdir, meta=True)
                         get_before[0] = last_get[0]
+                    elif op.get("collide_mid"):
+                        fp_before[0] = K.fingerprint(chdir, content=True)
                 node.go()
                 continue
             # ---- end of a call
@@ -732,6 +752,18 @@ def _run_session(ctx, tree, cfg, sess, si, chan_model, state):
                         ctx.v("C05", "rejected_call_changed_state", "rejected call (%s) changed writer state %s -> %s" % (
                             op["invalid"], get_before[0], g), invalid=op["invalid"])
                     rejected_before[0] = True
+                elif op.get("collide_mid"):
+                    res.probe("write_running_into_finalized_period")
+                    if e["ok"]:
+                        ctx.v("C11", "overwrite_accepted", "write %s running into a period finalized by an earlier session was accepted" % _opstr(op))
+                    fp = K.fingerprint(chdir, content=True)
+                    changed = [k_ for k_, v_ in fp_before[0].items() if v_[0] == "f" and fp.get(k_, (None,))[:3] != v_[:3]
+                               and not os.path.basename(k_).startswith("tmp.") and M.RE_RFFILE.match(os.path.basename(k_))]
+                    if changed:
+                        ctx.v("C11", "finalized_file_altered", "refused write altered %s" % changed[:3])
+                    state["c19_ok"] = False
+                    state["after_collide"] = True
+                    state.setdefault("mid", []).append(op)
                 elif op.get("collide"):
                     res.probe("write_into_finalized_period")
                     if e["ok"]:
@@ -813,6 +845,26 @@ def _run_session(ctx, tree, cfg, sess, si, chan_model, state):
         ctx.res.violate(ctx.prop, "node_died", "recorder process died with status %s (session %d)" % (
             node.died_of_signal(), si))
         state["broken"] = True
+    if state.get("mid") and not killed and not state.get("broken"):
+        import digital_rf
+
+        for op in state.pop("mid"):
+            a0, n1 = c.start + op["_rel"], op["pre_n"]
+            try:
+                got = digital_rf.DigitalRFReader(top).read(a0, a0 + n1 - 1, c.channel)
+                have = sum(int(v.shape[0]) for v in got.values())
+            except Exception:  # noqa
+                have = -1
+            if have == n1:
+                chan_model.add(a0, n1, op["salt"])
+                res.probe("leading_part_of_refused_write_kept")
+            elif have == 0:
+                res.probe("leading_part_of_refused_write_dropped")
+            else:
+                ctx.v("C11", "refused_write_left_fragments", "of the %d samples before the finalized period, %d are readable "
+                      "after the refused write %s" % (n1, have, _opstr(op)))
+                state["broken"] = True
+    state.pop("mid", None)
     res.stats["recorder_steps"] = res.stats.get("recorder_steps", 0) + nsteps
     return sm
 
